@@ -43,6 +43,16 @@ def check(ctx):
     for e in logs:
         a = e['arg']
         nrm = a.norm if a is not None else None
+        if a is not None and a.clamp is not None and a.clamp[0] == 'lo':
+            parts = [x for x in a.clamp[1:] if x is not None]
+            prob_like = any(x.norm is not None for x in parts)
+            floor_ = next((x for x in parts if x.norm is None), None)
+            positive = floor_ is not None and not (has_const(floor_) and cval(floor_) == 0)
+            if prob_like and positive:
+                ctx.ob('R1', fi, e['node'], False,
+                       'the probabilities are clamped to a small positive floor before the logarithm: never-visited voxels then get a finite, moderate '
+                       'energy (hundreds of kT) far below the graph thresholds, so they enter free-energy graphs and paths can cross never-visited space')
+                continue
         if nrm is None:
             ctx.ob('R1', fi, e['node'], None if a is None or a.bin is None else False,
                    'argument of the logarithm is not a density divided by its total' if a is not None and a.bin is not None else
